@@ -30,3 +30,15 @@ claim("C13", "MIR guard-dominance (must-pass-through) + who-may-write table",
       "handles and counters are produced only after try_lock succeeded; open derives read_only from !MUTABLE; "
       "write/set/remove/drop/move sit behind their lock tests; lock state is written only in kernel::substate_locks. "
       "Exact for these clauses on every CFG path; the counting invariant over histories is not decided.")
+
+claim("C51", "MIR guard-dominance under predicate restriction + who-may-construct/call tables",
+      "Decides: with MUTABLE set every opener (actor_open_field, key_value_store_open_entry, actor_open_key_value_entry) reaches Ok(handle) only "
+      "through a lock-status test whose Locked arm is doomed; write lock-data is built only on the MUTABLE arm and only by the openers; every "
+      "SystemService write API matches on a write lock-data variant before kernel_write_substate; kernel substate mutators have no direct caller "
+      "outside the audited modules; lock_status is assigned in place only by the two lock() methods (to Locked). Exact for these clauses.")
+
+claim("C50", "MIR guard-dominance with comparison-operand provenance + argument-origin dataflow + who-may-call table",
+      "Decides: drop_object reaches kernel_drop_node only past an actor-identity comparison (outer object or blueprint) with the two proof "
+      "blueprints as the only exemption constants; globalize creates the global node only after reservation/package/blueprint checks; "
+      "new_object takes the package from the current actor; every actor_* state API addresses the node resolved from the actor; the WASM "
+      "host surface calls no kernel primitive directly. Kernel visibility over arbitrary reference flows is not decided.")
